@@ -5,6 +5,7 @@ use proptest::prelude::*;
 use serde::{Deserialize, Serialize};
 use serde_json::{json, Value};
 
+use crate::vf::codec::{AmbientGuard, IpTweak};
 use crate::vf::dec_app::*;
 use crate::vf::engine::*;
 use crate::vf::gen::*;
@@ -46,6 +47,10 @@ pub struct Case {
     /// [signature length, length))
     #[serde(default)]
     pub cut: Option<u16>,
+    /// IP / TCP header fields the responder is not documented to look at (TOS, id, flag bits,
+    /// TTL, TCP window, urgent pointer), applied to every frame of the case
+    #[serde(default)]
+    pub tweak: Option<IpTweak>,
 }
 
 fn fault() -> impl Strategy<Value = Fault> {
@@ -68,9 +73,9 @@ fn fault() -> impl Strategy<Value = Fault> {
 }
 
 pub fn case_strategy() -> impl Strategy<Value = Case> {
-    (scenario(Fam::Any), port(), port(), any::<bool>(), http_req(), fault(), prop::option::weighted(0.3, any::<u16>())).prop_map(|(mut scn, sport, dport, tcp, req, fault, cut)| {
+    (scenario(Fam::Any), port(), port(), any::<bool>(), http_req(), fault(), prop::option::weighted(0.3, any::<u16>()), prop::option::weighted(0.3, crate::vf::props::c03::ip_tcp_tweak())).prop_map(|(mut scn, sport, dport, tcp, req, fault, cut, tweak)| {
         scn.cfg.logger = LoggerKind::None;
-        Case { scn, sport, dport, tcp, req, fault, cut }
+        Case { scn, sport, dport, tcp, req, fault, cut, tweak }
     })
 }
 
@@ -170,6 +175,7 @@ pub fn faulty_bytes(req: &HttpReq, f: &Fault) -> Option<Vec<u8>> {
 pub fn check(c: &Case, st: &mut Stats) -> Check {
     Sut::reset();
     st.eval();
+    let _ambient = AmbientGuard::set(&c.tweak);
     let sut = Sut::new(&c.scn.cfg);
     let bytes = match faulty_bytes(&c.req, &c.fault) {
         Some(b) => b,
@@ -268,7 +274,7 @@ pub struct KeepAlive {
 }
 
 pub fn keepalive_strategy() -> impl Strategy<Value = KeepAlive> {
-    (scenario_quiet(Fam::Any), port(), port(), vec(http_req(), 1..=3), prop::option::weighted(0.7, (http_req(), fault()))).prop_map(|(scn, sport, dport, mut reqs, last)| {
+    (scenario_levels(Fam::Any), port(), port(), vec(http_req(), 1..=3), prop::option::weighted(0.7, (http_req(), fault()))).prop_map(|(scn, sport, dport, mut reqs, last)| {
         for r in reqs.iter_mut() {
             r.tail = Hex(vec![]);
         }
